@@ -17,3 +17,7 @@ def register(prop, TB):
     prop("C13", lean_props=["C13"], bins=["rt", "gentool"], streams=gen("C13"), oracle_tags=["C13", "C04", "C11"], trusted_base=tb + [
         "retained chunks are represented in the model by the field value they encode (Binary.readVal of the same bytes); the pointer/offset bookkeeping of the emitted code (__pilota_begin_ptr, __pilota_offset, get_bytes) is covered by T1 only",
         "requests marked hazard=D12 / hazard=D31 are checked by the oracle only"])
+    prop("C19", level="other", lean_props=["C19"], bins=["rt", "gentool"], streams=gen("C19"), oracle_tags=["C19", "C09"], trusted_base=tb + [
+        "Rust's drop elaboration is not modelled; the ledger (TGen/Mem.lean) encodes its consequence for the templates: locals are released on early return, raw-pointer writes before set_len are not",
+        "the counting global allocator of harness/genrun (live bytes before/after each failing decode, input buffer included)"],
+        explanation="Ownership-ledger model of the emitted decode templates with machine-checked theorems (asynchronous decoders never leak, for all documents / inputs / protocol readers; the synchronous list arm leaks on a concrete witness), tied to the real emitted code by comparing, for every truncation point of valid encodings of every generated type, WHICH cuts leave live heap bytes behind (counting allocator) with the cuts the ledger predicts. The decisive runtime fact (what Rust actually frees) is observed, not proved: level other.")
